@@ -20,6 +20,7 @@
 -/
 import KavaVerif.Proofs.Emissions
 import KavaVerif.Proofs.EmissionsKavadist
+import KavaVerif.Proofs.TieFnCommunity
 set_option linter.unusedSimpArgs false
 set_option linter.unusedVariables false
 
@@ -453,5 +454,22 @@ theorem C19_begin_block_no_panic_live :
   first
     | exact Or.inl ⟨rfl, C19_begin_block_no_panic_counterexample⟩
     | exact Or.inr ⟨rfl, Fixed.C19_begin_block_no_panic⟩
+
+/-! ## source tie (regenerated)
+
+    `GoFn.Community.*` (Generated/FnCommunity.lean) is regenerated from the Go source of the listed pure
+    functions on every run by the function translator (tools/extract/fn*.go); these theorems say that the
+    regenerated definition IS the hand-written model function the theorems above are about.  A source edit
+    of the function re-opens exactly these obligations. -/
+
+/-- `calculateStakingRewards` of x/community/keeper/staking.go, as translated from the current source,
+    equals the model's `calculateStakingRewards` for all arguments whose two times are within ±2^63 ns of
+    each other (the model's documented `time.Time.Sub` assumption), and never panics or errors there. -/
+theorem C19_source_tie_calculateStakingRewards (now last : Int) (err rate pool : Dec)
+    (h1 : Go.minDur ≤ now - last) (h2 : now - last ≤ Go.maxDur) :
+    GoFn.Community.calculateStakingRewards_translated = true ∧
+    GoFn.Community.calculateStakingRewards now last err rate pool
+      = Go.R.ok (calculateStakingRewards now last err rate pool) :=
+  TieFn.community_calculateStakingRewards now last err rate pool h1 h2
 
 end KV.Em
